@@ -1,0 +1,82 @@
+#  This file is part of Pynguin.
+#
+#  SPDX-FileCopyrightText: 2019–2026 Pynguin Contributors
+#
+#  SPDX-License-Identifier: MIT
+#
+"""Fault-injection points for external verification harnesses.
+
+Everything in here is a no-op unless the environment variable ``SE2P_PYNGUIN_VERIF``
+is set to ``1`` *and* a crash plan is given.  With the guard set, a harness can kill
+the current (worker) process at a named phase of the pipeline:
+
+``PYNGUIN_VERIF_CRASH_PLAN``
+    Path of a text file with one ``attempt:phase:how`` entry per line.  ``attempt`` is
+    the zero-based number of the worker process (counted by its ``worker_start``
+    entries in the log), ``phase`` the name passed to :func:`crash_point` and ``how``
+    one of ``exit`` (``os._exit(70)``), ``kill`` (``SIGKILL``) or ``timer=<seconds>``
+    (``SIGKILL`` from a background thread after the given delay, i.e., in the middle
+    of the phase).
+``PYNGUIN_VERIF_CRASH_LOG``
+    Path of a file to which every reached crash point appends
+    ``pid attempt phase maximum_search_time``.
+"""
+
+from __future__ import annotations
+
+import os
+import signal
+import threading
+import time
+
+GUARD = "SE2P_PYNGUIN_VERIF"
+
+
+def _enabled() -> bool:
+    return os.environ.get(GUARD) == "1" and bool(os.environ.get("PYNGUIN_VERIF_CRASH_PLAN"))
+
+
+def _attempt(log_path: str | None, phase: str) -> int:
+    if not log_path or not os.path.exists(log_path):
+        return 0
+    with open(log_path, encoding="utf-8") as log:
+        starts = sum(1 for line in log if line.split()[2:3] == ["worker_start"])
+    # the current worker has already logged its own start unless this is the start
+    return starts if phase == "worker_start" else max(starts - 1, 0)
+
+
+def _die_later(delay: float) -> None:
+    time.sleep(delay)
+    os.kill(os.getpid(), signal.SIGKILL)
+
+
+def crash_point(phase: str) -> None:
+    """Possibly terminates the current process, as directed by the crash plan.
+
+    Args:
+        phase: The name of the pipeline phase that is about to start.
+    """
+    if not _enabled():
+        return
+    import pynguin.configuration as config  # noqa: PLC0415
+
+    log_path = os.environ.get("PYNGUIN_VERIF_CRASH_LOG")
+    attempt = _attempt(log_path, phase)
+    if log_path:
+        search_time = config.configuration.stopping.maximum_search_time
+        with open(log_path, "a", encoding="utf-8") as log:
+            log.write(f"{os.getpid()} {attempt} {phase} {search_time}\n")
+    with open(os.environ["PYNGUIN_VERIF_CRASH_PLAN"], encoding="utf-8") as plan:
+        entries = [line.strip().split(":") for line in plan if line.strip()]
+    for entry in entries:
+        if len(entry) != 3 or int(entry[0]) != attempt or entry[1] != phase:  # noqa: PLR2004
+            continue
+        how = entry[2]
+        if how == "exit":
+            os._exit(70)
+        if how == "kill":
+            os.kill(os.getpid(), signal.SIGKILL)
+        if how.startswith("timer="):
+            threading.Thread(
+                target=_die_later, args=(float(how.split("=", 1)[1]),), daemon=True
+            ).start()
